@@ -829,6 +829,53 @@ func (e *Engine) calledInPackage(fn *ssa.Function) bool {
 	return e.calledFns[fn]
 }
 
+// onlyCalledDirectly: fn has at least one static call site in the package and is never used as a value, started as a
+// goroutine, deferred or bound as a method value (those uses have no inlining caller).
+func (e *Engine) onlyCalledDirectly(fn *ssa.Function) bool {
+	called := false
+	for f := range e.fnName {
+		for _, b := range f.Blocks {
+			for _, in := range b.Instrs {
+				var ops []*ssa.Value
+				if ci, ok := in.(ssa.CallInstruction); ok {
+					sc := ci.Common().StaticCallee()
+					if sc != nil {
+						if o := sc.Origin(); o != nil {
+							sc = o
+						}
+					}
+					if sc == fn {
+						if f.Synthetic != "" {
+							return false // bound-method / wrapper thunk: the helper is used as a value
+						}
+						if _, isCall := in.(*ssa.Call); isCall && f != fn {
+							called = true
+						} else {
+							return false // go / defer of the helper
+						}
+					}
+					// as an argument
+					for _, a := range ci.Common().Args {
+						if af, ok := a.(*ssa.Function); ok && af == fn {
+							return false
+						}
+					}
+					continue
+				}
+				for _, op := range in.Operands(ops) {
+					if op == nil || *op == nil {
+						continue
+					}
+					if af, ok := (*op).(*ssa.Function); ok && af == fn {
+						return false
+					}
+				}
+			}
+		}
+	}
+	return called
+}
+
 // returnOrdinal: index (in block order) of the Return instruction the top frame is exiting through.
 func returnOrdinal(fr *Frame) int {
 	if fr.Block == nil {
